@@ -81,18 +81,21 @@ def datasets(tier, seed):
 def grids(est):
   """hyper-parameter settings: (dict for the supervised constructor, usable for the unlabeled clause?)"""
   if est == 'ITML_Supervised':
-    return [(dict(n_constraints=nc, gamma=g, max_iter=15, prior=p), p == 'identity')
-            for nc, g, p in ((None, 1.0, 'identity'), (5, 2.0, 'identity'), (12, 1.0, 'covariance'), (3, 0.5, 'random'))]
+    # bounds is the fit-time argument of both ITML_Supervised.fit and ITML.fit (None: percentiles of the pair points' distances)
+    return [(dict(n_constraints=nc, gamma=g, max_iter=15, prior=p, bounds=b), p == 'identity')
+            for nc, g, p, b in ((None, 1.0, 'identity', None), (5, 2.0, 'identity', (1.0, 20.0)), (12, 1.0, 'covariance', None), (3, 0.5, 'random', (0.5, 9.0)),
+                                (8, 1.0, 'identity', (2.0, 30.0)))]
   if est == 'MMC_Supervised':
-    return [(dict(n_constraints=nc, max_iter=5, max_proj=30, init='identity', diagonal=dg), True)
-            for nc, dg in ((None, False), (8, False), (6, True))]
+    # the full-matrix solver needs some iterations before it leaves the identity on this data
+    return [(dict(n_constraints=nc, max_iter=mi, max_proj=mp, init='identity', diagonal=dg), True)
+            for nc, dg, mi, mp in ((None, False, 50, 1000), (8, False, 50, 1000), (6, True, 5, 30))]
   if est == 'SDML_Supervised':
-    return [(dict(n_constraints=nc, prior='identity', balance_param=bp, sparsity_param=0.01), True) for nc, bp in ((None, 0.5), (8, 0.1))]
+    return [(dict(n_constraints=nc, prior='identity', balance_param=bp, sparsity_param=0.01), True) for nc, bp in ((None, 1e-4), (8, 1e-3), (5, 3e-4))]      # small balance: the graphical-lasso input stays SPD on this data
   if est == 'LSML_Supervised':
     return [(dict(n_constraints=nc, prior=p, max_iter=5, weights=w), p == 'identity')
             for nc, p, w in ((None, 'identity', None), (6, 'identity', 'given'), (9, 'covariance', None))]
   if est == 'RCA_Supervised':
-    return [(dict(n_chunks=nch, chunk_size=cs), True) for nch, cs in ((3, 2), (4, 2), (2, 3), (2, 2), (5, 2))]
+    return [(dict(n_chunks=nch, chunk_size=cs), True) for nch, cs in ((3, 2), (4, 2), (2, 3), (2, 2), (1, 3))]
   return ([(dict(k_genuine=kg, k_impostor=ki, basis='triplet_diffs', n_basis=nb, max_iter=40, output_iter=10, batch_size=4), True)
            for kg, ki, nb in ((1, 1, 6), (2, 2, 6), (3, 1, 8), (1, 3, 8), (2, 3, 6))]
           + [(dict(k_genuine=2, k_impostor=2, basis='lda', n_basis=6, max_iter=40, output_iter=10, batch_size=4), False)])
@@ -120,7 +123,9 @@ def lsml_weights(ml, y, hp, s):
   return np.linspace(0.5, 1.5, m)
 
 
-def default_candidates(y, nc):
+def default_candidates(y, nc, has_nc=True):
+  if not has_nc:
+    return [None]
   if nc is not None:
     return [nc]
   c = [20 * len(np.unique(y)) ** 2]
@@ -131,7 +136,21 @@ def default_candidates(y, nc):
 
 def fit_supervised(ml, est, hp, s, X, y):
   hp = dict(hp)
+  if est == 'ITML_Supervised':
+    b = hp.pop('bounds')
+    return ml.ITML_Supervised(random_state=s, **hp).fit(X.copy(), y.copy(), bounds=None if b is None else np.array(b, dtype=float))
   return getattr(ml, est)(random_state=s, **hp).fit(X.copy(), y.copy())
+
+
+def base_estimator(ml, est, hp, s):
+  """the weakly-supervised base class constructed with the SAME hyper-parameters: every constructor parameter the two
+  classes share is read from the supervised estimator (their defaults differ, e.g. tol of MMC vs MMC_Supervised)"""
+  import inspect
+  sup = getattr(ml, est)(random_state=s, **hp)
+  params = sup.get_params(deep=False)
+  cls = getattr(ml, est[:-len('_Supervised')])
+  names = [k for k in inspect.signature(cls.__init__).parameters if k != 'self']
+  return cls(**{k: params[k] for k in names if k in params})
 
 
 def fit_base(ml, est, hp, s, X, y, nc):
@@ -139,23 +158,23 @@ def fit_base(ml, est, hp, s, X, y, nc):
   hp = dict(hp)
   C = ml.Constraints(y.copy())
   if est in ('ITML_Supervised', 'MMC_Supervised', 'SDML_Supervised'):
-    hp.pop('n_constraints')
     pairs, lab = wrap_pairs(X, C.positive_negative_pairs(nc, random_state=s))
-    return getattr(ml, est[:-len('_Supervised')])(random_state=s, **hp).fit(pairs, lab)
+    if est == 'ITML_Supervised':
+      b = hp.pop('bounds')
+      return base_estimator(ml, est, hp, s).fit(pairs, lab, bounds=None if b is None else np.array(b, dtype=float))
+    return base_estimator(ml, est, hp, s).fit(pairs, lab)
   if est == 'LSML_Supervised':
-    hp.pop('n_constraints')
-    w = hp.pop('weights')
     quads = X[np.column_stack(C.positive_negative_pairs(nc, same_length=True, random_state=s))]
-    return ml.LSML(random_state=s, **hp).fit(quads, weights=w)
+    return base_estimator(ml, est, hp, s).fit(quads, weights=hp['weights'])
   if est == 'RCA_Supervised':
-    return ml.RCA().fit(X.copy(), C.chunks(n_chunks=hp['n_chunks'], chunk_size=hp['chunk_size'], random_state=s))
-  kg, ki = hp.pop('k_genuine'), hp.pop('k_impostor')
-  trip = X[C.generate_knntriplets(X, kg, ki)]
+    return base_estimator(ml, est, hp, s).fit(X.copy(), C.chunks(n_chunks=hp['n_chunks'], chunk_size=hp['chunk_size'], random_state=s))
+  trip = X[C.generate_knntriplets(X, hp['k_genuine'], hp['k_impostor'])]
   if hp['basis'] == 'lda':
-    basis, n_basis = ml.SCML_Supervised(k_genuine=kg, k_impostor=ki, random_state=s, **hp)._initialize_basis_supervised(X, y)
-    hp.pop('basis')
-    return ml.SCML(random_state=s, **hp)._fit(trip, basis, n_basis)
-  return ml.SCML(random_state=s, **hp).fit(trip)
+    basis, n_basis = getattr(ml, est)(random_state=s, **hp)._initialize_basis_supervised(X, y)
+    base = base_estimator(ml, est, hp, s)
+    base.set_params(basis='triplet_diffs')      # unused: the basis is handed to the optimiser, as SCML_Supervised.fit does
+    return base._fit(trip, basis, n_basis)
+  return base_estimator(ml, est, hp, s).fit(trip)
 
 
 def metric(L):
@@ -203,7 +222,7 @@ def check_refinement(ml, est, hp, s, X, y):
     hp_sup['weights'] = hp['weights'].copy()
   st, A = outcome(lambda: fit_supervised(ml, est, hp_sup, s, X, y))
   results = []
-  for nc in default_candidates(y, hp.get('n_constraints')):
+  for nc in default_candidates(y, hp.get('n_constraints'), 'n_constraints' in hp):
     hp_b = dict(hp)
     if hp_b.get('weights') is not None:
       hp_b['weights'] = hp['weights'].copy()
@@ -217,12 +236,15 @@ def check_refinement(ml, est, hp, s, X, y):
   if any(r[1] == 'ok' and same(A, r[2]) for r in results):
     return None
   ok = [r for r in results if r[1] == 'ok']
+  if not ok and not np.isfinite(A).all():
+    VACUOUS.append((est, 'non-finite metric'))      # degenerate fit: the public base fit goes on to calibrate a threshold and rejects it
+    return None
   if not ok:
     return dict(tag='refinement.same-outcome', signature=sig(est, y), input=describe(est, hp, s, X, y),
                 observed='%s.fit returns a metric; the base learner on the derived constraints raises %s' % (est, results[0][2]))
   return dict(tag='refinement.same-components', signature=sig(est, y), input=describe(est, hp, s, X, y),
               observed='components_ of %s differ from the base learner fitted on the constraints of Constraints(y) with random_state=%d: %s'
-                       % (est, s, '; '.join('n_constraints=%s: %s' % (r[0], diff(A, r[2])) for r in ok)))
+                       % (est, s, '; '.join(('n_constraints=%s: ' % r[0] if r[0] is not None else '') + diff(A, r[2]) for r in ok)))
 
 
 def check_unlabeled(ml, est, hp, s, X, y, X2):
@@ -364,7 +386,7 @@ def run(tier, seed):
                    'unlabeled (move the points labelled -1) where unknown labels are present and prior/init is identity; all descriptions distinct; non-trivial = at least '
                    'one of the two fits returned a metric.  cases (vacuous) per estimator and clause: %s.  vacuous because both fits raise: %s'
                    % ('; '.join('%s %d (%d)' % (k, a, b) for k, (a, b) in sorted(per.items())), '; '.join(vac) or 'none'),
-              bound='%d data sets of <= 22 points in R^3, %d integer seeds, max_iter <= 40; M = components_^T components_ compared with rtol %g, atol %g * max|M|' % (cfg['n_sets'], cfg['n_seeds'], RTOL, ATOL),
+              bound='%d data sets of <= 22 points in R^3, %d integer seeds, max_iter <= 50; M = components_^T components_ compared with rtol %g, atol %g * max|M|' % (cfg['n_sets'], cfg['n_seeds'], RTOL, ATOL),
               standin_samples=[s[:200] for s in parts[0]['samples']], violations=vio)
 
 
